@@ -162,6 +162,15 @@ def check_case(ctx, report, left, right, pipe, lo, hi, label):
                               window_size=inp["window_size"], marge=marge, f=f,
                               user_min=core.enc(inp["user_min"]), user_max=core.enc(inp["user_max"]),
                               fine_rows=lvl["rows"], fine_cols=lvl["cols"])
+        # the user interval handed to disparity_range after the level of scale s is user / f^s (theorem
+        # user_interval_at_scale): the recorded value must be that, and the specification is evaluated with it
+        s_scale = inp["scale"]
+        for nm, user in (("user_min", lo), ("user_max", hi)):
+            want = Fraction(user, f ** s_scale)
+            report.hit("invalid_parent_full_interval")
+            if abs(inp[nm] - float(want)) > 1e-6 * max(1.0, abs(float(want))):
+                report.fail("invalid_parent_full_interval", nm, dict(case, level=s_scale),
+                            {"user_interval_given_to_disparity_range": inp[nm]}, f"expected {want} (user interval / factor^scale)")
         report.hit("finer_interval_rule")
         for name, key, skey in (("disp_min", "min", "spec_min"), ("disp_max", "max", "spec_max")):
             g = lvl[name]
